@@ -7,7 +7,8 @@ inductive PK where
   | nonvideo | fault | vps | sps | pps | key | other
   deriving DecidableEq, Repr
 
-/-- the cache's view of one packet: channel, classifier verdict, and the priority order of CachePack -/
+/-- the cache's view of one packet taken alone: channel, classifier verdict, and the priority order of
+    CachePack (`key` here means: a key-frame SLICE packet) -/
 def pktKind (k : NalConsts) (hevc : Bool) (p : Pkt) : PK :=
   if p.ch ≠ 0 then .nonvideo else
   match (if hevc then classify265 k p.payload else classify264 k p.payload) with
@@ -47,7 +48,79 @@ theorem rev_ind {α} {P : List α → Prop} (h0 : P []) (hs : ∀ l a, P l → P
     | cons a r ih => simpa using hs _ a ih
   simpa using this l.reverse
 
-/-- CachePack, by the kind of the packet -/
+/-! #### key frames of several slice packets
+
+All packets of one access unit carry the same RTP timestamp.  A key-frame slice packet that
+follows a key-frame slice packet with the same timestamp continues that key frame: the cache
+treats it as an ordinary packet of the GOP (it does not restart the GOP and is not reported as a
+key-frame start).  `effKind` is the kind the cache acts on, given the run left by the history. -/
+
+/-- the key run after a packet: a key slice opens (or continues) a run with its timestamp, any
+    other slice packet ends it, packets that are not slices leave it alone -/
+def nextRun (k : NalConsts) (hevc : Bool) (run : Option Nat) (p : Pkt) : Option Nat :=
+  match pktKind k hevc p with
+  | .key => some p.ts
+  | .other => none
+  | _ => run
+
+/-- the kind the cache acts on -/
+def effKind (k : NalConsts) (hevc : Bool) (run : Option Nat) (p : Pkt) : PK :=
+  match pktKind k hevc p with
+  | .key => if run = some p.ts then .other else .key
+  | x => x
+
+/-- the history annotated with effective kinds -/
+def ann (k : NalConsts) (hevc : Bool) : Option Nat → List Pkt → List (Pkt × PK)
+  | _, [] => []
+  | run, p :: ps => (p, effKind k hevc run p) :: ann k hevc (nextRun k hevc run p) ps
+
+def runAfter (k : NalConsts) (hevc : Bool) : Option Nat → List Pkt → Option Nat
+  | run, [] => run
+  | run, p :: ps => runAfter k hevc (nextRun k hevc run p) ps
+
+theorem ann_snoc (k : NalConsts) (hevc : Bool) (run : Option Nat) (ps : List Pkt) (p : Pkt) :
+    ann k hevc run (ps ++ [p]) = ann k hevc run ps ++ [(p, effKind k hevc (runAfter k hevc run ps) p)] := by
+  induction ps generalizing run with
+  | nil => simp [ann, runAfter]
+  | cons q qs ih => simp [ann, runAfter, ih]
+
+theorem runAfter_snoc (k : NalConsts) (hevc : Bool) (run : Option Nat) (ps : List Pkt) (p : Pkt) :
+    runAfter k hevc run (ps ++ [p]) = nextRun k hevc (runAfter k hevc run ps) p := by
+  induction ps generalizing run with
+  | nil => simp [runAfter]
+  | cons q qs ih => simp [runAfter, ih]
+
+/-- the GOP the specification prescribes for an annotated history: everything of kind key/other
+    from the last key-frame START on -/
+def gopOf (l : List (Pkt × PK)) : List Pkt :=
+  (suffixFromLast (fun x => decide (x.2 = PK.key))
+    (l.filter (fun x => decide (x.2 = PK.key ∨ x.2 = PK.other)))).map (·.1)
+
+theorem gopOf_snoc (l : List (Pkt × PK)) (p : Pkt) (kd : PK) :
+    gopOf (l ++ [(p, kd)]) =
+      (match kd with
+       | .key => [p]
+       | .other => (match gopOf l with | [] => [] | r :: rs => (r :: rs) ++ [p])
+       | _ => gopOf l) := by
+  unfold gopOf
+  rw [List.filter_append]
+  cases kd with
+  | key => simp [suffixFromLast_snoc]
+  | other =>
+    simp only [List.filter_cons, List.filter_nil, decide_true, Bool.or_true, if_true, or_true]
+    rw [suffixFromLast_snoc]
+    simp only [reduceCtorEq, decide_false, Bool.false_eq_true, if_false]
+    cases suffixFromLast (fun x => decide (x.2 = PK.key))
+        (List.filter (fun x => decide (x.2 = PK.key ∨ x.2 = PK.other)) l) with
+    | nil => simp
+    | cons r rs => simp
+  | nonvideo => simp
+  | fault => simp
+  | vps => simp
+  | sps => simp
+  | pps => simp
+
+/-- CachePack, by the (effective) kind of the packet -/
 def packK (c : Cache) (p : Pkt) : PK → Option (Cache × Bool)
   | .nonvideo => some (c, false)
   | .fault => none
@@ -59,8 +132,9 @@ def packK (c : Cache) (p : Pkt) : PK → Option (Cache × Bool)
               else some (c, false)
 
 theorem pack_kind (k : NalConsts) (c : Cache) (p : Pkt) :
-    c.pack k p = packK c p (pktKind k c.hevc p) := by
-  unfold Cache.pack pktKind Cache.classify
+    c.pack k p = (packK c p (effKind k c.hevc c.keyRun p)).map
+      (fun r => ({ r.1 with keyRun := nextRun k c.hevc c.keyRun p }, r.2)) := by
+  unfold Cache.pack effKind nextRun pktKind Cache.classify
   by_cases hch : p.ch ≠ 0
   · simp [hch, packK]
   · simp only [hch, if_false]
@@ -78,20 +152,24 @@ theorem pack_kind (k : NalConsts) (c : Cache) (p : Pkt) :
           · simp [h3, packK]
           · simp only [h3, Bool.false_eq_true, if_false]
             by_cases h4 : f.key = true
-            · simp [h4, packK]
+            · by_cases hr : c.keyRun = some p.ts
+              · cases hg : c.cacheGop
+                · simp [h4, hr, packK, hg]
+                · by_cases hl : 0 < c.gop.length <;> simp [h4, hr, packK, hg, hl]
+              · cases hg : c.cacheGop <;> simp [h4, hr, packK, hg]
             · have h4' : f.key = false := by simpa using h4
-              simp [h4', packK]
+              cases hg : c.cacheGop
+              · simp [h4', packK, hg]
+              · by_cases hl : 0 < c.gop.length <;> simp [h4', packK, hg, hl]
 
 /-- the specification of the cache contents -/
 structure CacheSpec (k : NalConsts) (hevc gop : Bool) (ps : List Pkt) (c : Cache) : Prop where
   cfg : c.hevc = hevc ∧ c.cacheGop = gop
+  run : c.keyRun = runAfter k hevc none ps
   vps : c.vps = (ps.filter (fun p => pktKind k hevc p = .vps)).getLast?
   sps : c.sps = (ps.filter (fun p => pktKind k hevc p = .sps)).getLast?
   pps : c.pps = (ps.filter (fun p => pktKind k hevc p = .pps)).getLast?
-  gopS : c.gop = if gop then
-      suffixFromLast (fun p => pktKind k hevc p = .key)
-        (ps.filter (fun p => pktKind k hevc p = .key ∨ pktKind k hevc p = .other))
-    else []
+  gopS : c.gop = if gop then gopOf (ann k hevc none ps) else []
 
 theorem getLast?_filter_snoc {α} (q : α → Bool) (l : List α) (a : α) :
     ((l ++ [a]).filter q).getLast? = if q a then some a else (l.filter q).getLast? := by
@@ -103,104 +181,139 @@ theorem getLast?_filter_snoc {α} (q : α → Bool) (l : List α) (a : α) :
 theorem cacheSpec_packAll (k : NalConsts) (hevc gop : Bool) (ps : List Pkt) :
     CacheSpec k hevc gop ps (packAll k { hevc := hevc, cacheGop := gop } ps) := by
   induction ps using rev_ind with
-  | h0 => exact ⟨⟨rfl, rfl⟩, by simp [packAll], by simp [packAll], by simp [packAll], by simp [packAll, suffixFromLast]⟩
+  | h0 => exact ⟨⟨rfl, rfl⟩, by simp [packAll, runAfter], by simp [packAll], by simp [packAll], by simp [packAll], by simp [packAll, ann, gopOf, suffixFromLast]⟩
   | hs ps p ih =>
     rw [packAll_append, pack_kind]
-    obtain ⟨⟨hh, hg⟩, hv, hs, hp, hgop⟩ := ih
-    rw [hh]
+    obtain ⟨⟨hh, hg⟩, hrun, hv, hs, hp, hgop⟩ := ih
+    rw [hh, hrun]
+    have hrun' : nextRun k hevc (runAfter k hevc none ps) p = runAfter k hevc none (ps ++ [p]) := (runAfter_snoc ..).symm
+    -- the effective kind differs from the packet's own kind only for a continuing key slice
     cases hk : pktKind k hevc p with
     | nonvideo =>
-      simp only [packK]
-      refine ⟨⟨hh, hg⟩, ?_, ?_, ?_, ?_⟩
+      have he : effKind k hevc (runAfter k hevc none ps) p = .nonvideo := by simp [effKind, hk]
+      simp only [he, packK, Option.map_some]
+      refine ⟨⟨hh, hg⟩, hrun', ?_, ?_, ?_, ?_⟩
       · rw [getLast?_filter_snoc]; simp [hk, hv]
       · rw [getLast?_filter_snoc]; simp [hk, hs]
       · rw [getLast?_filter_snoc]; simp [hk, hp]
-      · rw [hgop, List.filter_append]; simp [hk]
+      · rw [ann_snoc, gopOf_snoc, he]; exact hgop
     | fault =>
-      simp only [packK]
-      refine ⟨⟨hh, hg⟩, ?_, ?_, ?_, ?_⟩
+      have he : effKind k hevc (runAfter k hevc none ps) p = .fault := by simp [effKind, hk]
+      simp only [he, packK, Option.map_none]
+      refine ⟨⟨hh, hg⟩, ?_, ?_, ?_, ?_, ?_⟩
+      · rw [runAfter_snoc]; simp [nextRun, hk, hrun]
       · rw [getLast?_filter_snoc]; simp [hk, hv]
       · rw [getLast?_filter_snoc]; simp [hk, hs]
       · rw [getLast?_filter_snoc]; simp [hk, hp]
-      · rw [hgop, List.filter_append]; simp [hk]
+      · rw [ann_snoc, gopOf_snoc, he]; exact hgop
     | vps =>
-      simp only [packK]
-      refine ⟨⟨hh, hg⟩, ?_, ?_, ?_, ?_⟩
+      have he : effKind k hevc (runAfter k hevc none ps) p = .vps := by simp [effKind, hk]
+      simp only [he, packK, Option.map_some]
+      refine ⟨⟨hh, hg⟩, hrun', ?_, ?_, ?_, ?_⟩
       · rw [getLast?_filter_snoc]; simp [hk]
       · rw [getLast?_filter_snoc]; simp [hk, hs]
       · rw [getLast?_filter_snoc]; simp [hk, hp]
-      · simp only; rw [hgop, List.filter_append]; simp [hk]
+      · rw [ann_snoc, gopOf_snoc, he]; exact hgop
     | sps =>
-      simp only [packK]
-      refine ⟨⟨hh, hg⟩, ?_, ?_, ?_, ?_⟩
+      have he : effKind k hevc (runAfter k hevc none ps) p = .sps := by simp [effKind, hk]
+      simp only [he, packK, Option.map_some]
+      refine ⟨⟨hh, hg⟩, hrun', ?_, ?_, ?_, ?_⟩
       · rw [getLast?_filter_snoc]; simp [hk, hv]
       · rw [getLast?_filter_snoc]; simp [hk]
       · rw [getLast?_filter_snoc]; simp [hk, hp]
-      · simp only; rw [hgop, List.filter_append]; simp [hk]
+      · rw [ann_snoc, gopOf_snoc, he]; exact hgop
     | pps =>
-      simp only [packK]
-      refine ⟨⟨hh, hg⟩, ?_, ?_, ?_, ?_⟩
+      have he : effKind k hevc (runAfter k hevc none ps) p = .pps := by simp [effKind, hk]
+      simp only [he, packK, Option.map_some]
+      refine ⟨⟨hh, hg⟩, hrun', ?_, ?_, ?_, ?_⟩
       · rw [getLast?_filter_snoc]; simp [hk, hv]
       · rw [getLast?_filter_snoc]; simp [hk, hs]
       · rw [getLast?_filter_snoc]; simp [hk]
-      · simp only; rw [hgop, List.filter_append]; simp [hk]
+      · rw [ann_snoc, gopOf_snoc, he]; exact hgop
     | key =>
-      simp only [packK]
-      rw [hg]
-      cases gop with
-      | false =>
-        simp only [Bool.false_eq_true, if_false]
-        refine ⟨⟨hh, by first | exact hg | rfl⟩, ?_, ?_, ?_, ?_⟩
-        · rw [getLast?_filter_snoc]; simp [hk, hv]
-        · rw [getLast?_filter_snoc]; simp [hk, hs]
-        · rw [getLast?_filter_snoc]; simp [hk, hp]
-        · simpa using hgop
-      | true =>
-        simp only [if_true]
-        refine ⟨⟨hh, by first | exact hg | rfl⟩, ?_, ?_, ?_, ?_⟩
-        · rw [getLast?_filter_snoc]; simp [hk, hv]
-        · rw [getLast?_filter_snoc]; simp [hk, hs]
-        · rw [getLast?_filter_snoc]; simp [hk, hp]
-        · simp only [if_true]
-          rw [List.filter_append]
-          simp only [hk, List.filter_cons, List.filter_nil, decide_true, Bool.true_or, if_true, true_or]
-          rw [suffixFromLast_snoc]; simp [hk]
+      have hvv : ((ps ++ [p]).filter (fun p => pktKind k hevc p = .vps)).getLast? = (packAll k { hevc := hevc, cacheGop := gop } ps).vps := by
+        rw [getLast?_filter_snoc]; simp [hk, hv]
+      have hss : ((ps ++ [p]).filter (fun p => pktKind k hevc p = .sps)).getLast? = (packAll k { hevc := hevc, cacheGop := gop } ps).sps := by
+        rw [getLast?_filter_snoc]; simp [hk, hs]
+      have hpp : ((ps ++ [p]).filter (fun p => pktKind k hevc p = .pps)).getLast? = (packAll k { hevc := hevc, cacheGop := gop } ps).pps := by
+        rw [getLast?_filter_snoc]; simp [hk, hp]
+      by_cases hr : runAfter k hevc none ps = some p.ts
+      · -- a further slice of the running key frame: stored like any packet of the GOP
+        have he : effKind k hevc (runAfter k hevc none ps) p = .other := by simp [effKind, hk, hr]
+        simp only [he, packK]
+        rw [hg]
+        cases gop with
+        | false =>
+          simp only [Bool.false_eq_true, if_false, Option.map_some]
+          exact ⟨⟨hh, by first | exact hg | rfl⟩, hrun', hvv.symm, hss.symm, hpp.symm, by simpa using hgop⟩
+        | true =>
+          simp only [if_true] at hgop ⊢
+          have hsn : gopOf (ann k hevc none (ps ++ [p])) =
+              (match (packAll k { hevc := hevc, cacheGop := true } ps).gop with | [] => [] | r :: rs => (r :: rs) ++ [p]) := by
+            rw [ann_snoc, gopOf_snoc, he, ← hgop]
+          cases hgl : (packAll k { hevc := hevc, cacheGop := true } ps).gop with
+          | nil =>
+            rw [hgl] at hsn
+            simp only [List.length_nil, gt_iff_lt, Nat.lt_irrefl, if_false, Option.map_some]
+            exact ⟨⟨hh, by first | exact hg | rfl⟩, hrun', hvv.symm, hss.symm, hpp.symm, by simp only [if_true]; rw [hsn]; exact hgl⟩
+          | cons r rs =>
+            rw [hgl] at hsn
+            simp only [List.length_cons, gt_iff_lt, Nat.zero_lt_succ, if_true, Option.map_some]
+            exact ⟨⟨hh, by first | exact hg | rfl⟩, hrun', hvv.symm, hss.symm, hpp.symm, by simp only [if_true]; rw [hsn]⟩
+      · have he : effKind k hevc (runAfter k hevc none ps) p = .key := by simp [effKind, hk, hr]
+        simp only [he, packK]
+        rw [hg]
+        cases gop with
+        | false =>
+          simp only [Bool.false_eq_true, if_false, Option.map_some]
+          exact ⟨⟨hh, by first | exact hg | rfl⟩, hrun', hvv.symm, hss.symm, hpp.symm, by simpa using hgop⟩
+        | true =>
+          simp only [if_true, Option.map_some]
+          exact ⟨⟨hh, by first | exact hg | rfl⟩, hrun', hvv.symm, hss.symm, hpp.symm, by simp only [if_true]; rw [ann_snoc, gopOf_snoc, he]⟩
     | other =>
-      simp only [packK]
+      have he : effKind k hevc (runAfter k hevc none ps) p = .other := by simp [effKind, hk]
+      have hvv : ((ps ++ [p]).filter (fun p => pktKind k hevc p = .vps)).getLast? = (packAll k { hevc := hevc, cacheGop := gop } ps).vps := by
+        rw [getLast?_filter_snoc]; simp [hk, hv]
+      have hss : ((ps ++ [p]).filter (fun p => pktKind k hevc p = .sps)).getLast? = (packAll k { hevc := hevc, cacheGop := gop } ps).sps := by
+        rw [getLast?_filter_snoc]; simp [hk, hs]
+      have hpp : ((ps ++ [p]).filter (fun p => pktKind k hevc p = .pps)).getLast? = (packAll k { hevc := hevc, cacheGop := gop } ps).pps := by
+        rw [getLast?_filter_snoc]; simp [hk, hp]
+      simp only [he, packK]
       rw [hg]
       cases gop with
       | false =>
-        simp only [Bool.false_eq_true, if_false]
-        refine ⟨⟨hh, by first | exact hg | rfl⟩, ?_, ?_, ?_, ?_⟩
-        · rw [getLast?_filter_snoc]; simp [hk, hv]
-        · rw [getLast?_filter_snoc]; simp [hk, hs]
-        · rw [getLast?_filter_snoc]; simp [hk, hp]
-        · simpa using hgop
+        simp only [Bool.false_eq_true, if_false, Option.map_some]
+        exact ⟨⟨hh, by first | exact hg | rfl⟩, hrun', hvv.symm, hss.symm, hpp.symm, by simpa using hgop⟩
       | true =>
         simp only [if_true] at hgop ⊢
-        have hsn : suffixFromLast (fun p => decide (pktKind k hevc p = PK.key))
-            (List.filter (fun p => decide (pktKind k hevc p = PK.key ∨ pktKind k hevc p = PK.other)) (ps ++ [p]))
-            = (match (packAll k { hevc := hevc, cacheGop := true } ps).gop with | [] => [] | r :: rs => (r :: rs) ++ [p]) := by
-          rw [List.filter_append]
-          simp only [hk, List.filter_cons, List.filter_nil, decide_true, Bool.or_true, if_true, or_true]
-          rw [suffixFromLast_snoc, ← hgop]; simp only [hk]
-          cases (packAll k { hevc := hevc, cacheGop := true } ps).gop <;> simp
+        have hsn : gopOf (ann k hevc none (ps ++ [p])) =
+            (match (packAll k { hevc := hevc, cacheGop := true } ps).gop with | [] => [] | r :: rs => (r :: rs) ++ [p]) := by
+          rw [ann_snoc, gopOf_snoc, he, ← hgop]
         cases hgl : (packAll k { hevc := hevc, cacheGop := true } ps).gop with
         | nil =>
           rw [hgl] at hsn
-          simp only [hgl, List.length_nil, gt_iff_lt, Nat.lt_irrefl, if_false]
-          refine ⟨⟨hh, by first | exact hg | rfl⟩, ?_, ?_, ?_, ?_⟩
-          · rw [getLast?_filter_snoc]; simp [hk, hv]
-          · rw [getLast?_filter_snoc]; simp [hk, hs]
-          · rw [getLast?_filter_snoc]; simp [hk, hp]
-          · simp only [if_true]; rw [hsn]; exact hgl
+          simp only [List.length_nil, gt_iff_lt, Nat.lt_irrefl, if_false, Option.map_some]
+          exact ⟨⟨hh, by first | exact hg | rfl⟩, hrun', hvv.symm, hss.symm, hpp.symm, by simp only [if_true]; rw [hsn]; exact hgl⟩
         | cons r rs =>
           rw [hgl] at hsn
-          simp only [hgl, List.length_cons, gt_iff_lt, Nat.zero_lt_succ, if_true]
-          refine ⟨⟨hh, by first | exact hg | rfl⟩, ?_, ?_, ?_, ?_⟩
-          · rw [getLast?_filter_snoc]; simp [hk, hv]
-          · rw [getLast?_filter_snoc]; simp [hk, hs]
-          · rw [getLast?_filter_snoc]; simp [hk, hp]
-          · simp only [if_true]; rw [hsn]
+          simp only [List.length_cons, gt_iff_lt, Nat.zero_lt_succ, if_true, Option.map_some]
+          exact ⟨⟨hh, by first | exact hg | rfl⟩, hrun', hvv.symm, hss.symm, hpp.symm, by simp only [if_true]; rw [hsn]⟩
+
+/-- is this packet a video slice packet (what the GOP consists of) -/
+def isSlice (k : NalConsts) (hevc : Bool) (p : Pkt) : Bool :=
+  decide (pktKind k hevc p = .key ∨ pktKind k hevc p = .other)
+
+/-- the key run left by a history, without the scan: it is open exactly when the LAST slice
+    packet of the history is a key-frame slice, and then carries that packet's timestamp -/
+theorem runAfter_spec (k : NalConsts) (hevc : Bool) (ps : List Pkt) :
+    runAfter k hevc none ps =
+      (match (ps.filter (isSlice k hevc)).getLast? with
+       | some q => if pktKind k hevc q = .key then some q.ts else none
+       | none => none) := by
+  induction ps using rev_ind with
+  | h0 => simp [runAfter]
+  | hs ps p ih =>
+    rw [runAfter_snoc, getLast?_filter_snoc, ih]
+    cases hk : pktKind k hevc p <;> simp [nextRun, isSlice, hk]
 
 end IpcHub.Media
